@@ -28,6 +28,10 @@ WHAT = {
         "service's only port (API: 'if a service exposes only a single port it is not required to explicitly select the port')",
     "gateway-decision": "gateway route configuration (host intersection, merged VirtualServices, SortVHostRoutes, httpsRedirect) decides a "
                         "request differently from the gateway spec",
+    "wildcard-host-younger-virtualservice-ignored":
+        "sidecar path: when several VirtualServices list the same wildcard host, only the oldest is ever considered for a service "
+        "(wildcardVirtualServiceHostIndex never overwrites); if it has no rule for this proxy the service gets the default route even "
+        "though a younger VirtualService with the same host applies - unlike exact hosts, where the next applicable one is used",
     "mesh-decision": "end to end (virtual-host selection by authority, then first matching route) the real sidecar route configuration "
                      "decides a request differently from the applicable VirtualService / default route",
     "alt-host-sound":
@@ -50,7 +54,7 @@ def case_slices(lines):
 
 def run_oracle(ctx, stream, ops):
     """Returns list of (clause, verdict, case_ops), one entry per distinct failing clause."""
-    out = ops + ".verdict"
+    out = os.path.join(ctx.work, os.path.basename(ops) + ".verdict")
     if os.path.exists(out):
         os.remove(out)
     rc, log = ctx.harness("oracle", stream, ops, out)
@@ -155,6 +159,13 @@ def run(ctx):
     # witnesses of the known findings (corpus only): each must still reproduce, as KNOWN-FINDING
     ctx.diff_stream("known-requests", 0, oracle=oracle, nontrivial=nontrivial)
     ctx.diff_stream("known-rds", 0, oracle=oracle, nontrivial=nontrivial)
+    # ... also when model and implementation agree on them (the Lean side is silent for known classes)
+    cdir2 = os.path.join(os.path.dirname(os.path.dirname(os.path.abspath(__file__))), "harness", "corpus", ctx.pid)
+    for f in sorted(os.listdir(cdir2)):
+        if f.startswith("known-") and f.endswith(".ops"):
+            fails = run_oracle(ctx, f.split(".")[0], os.path.join(cdir2, f))
+            if fails:
+                report(ctx, f.split(".")[0], fails)
     # second line: the property oracle on every generated case, independent of the Lean model
     for stream in STREAMS:
         g = os.path.join(ctx.work, "%s.gen.ops" % stream)
